@@ -210,6 +210,14 @@ def helper_shape(run, f, sp):
             if r2[0] == "call" and r2[2].startswith("std::result::Result") and r2[2].endswith("unwrap_or_else"):
                 src = strip_wrappers(otr.norm(otr.call_args(r2[1])[0]))
                 okr = src[0] == "call" and src[2].startswith("std::sync::mpsc::Receiver") and src[2].endswith("recv")
+        if not okr:
+            # ... or as an explicit match: `match rx.recv() { Ok(result) => result, Err(_) => Err(Error::..) }`
+            r3 = otr.norm(otr.local(0))
+            mem3 = [strip_wrappers(m) for m in (r3[1] if r3[0] == "phi" else [r3])]
+            got = [m for m in mem3 if m[0] == "field" and m[1] == 0 and m[2][0] == "downcast" and m[2][1] == "Ok" and strip_wrappers(m[2][2])[0] == "call"
+                   and strip_wrappers(m[2][2])[2].startswith("std::sync::mpsc::Receiver") and strip_wrappers(m[2][2])[2].endswith("recv")]
+            dead = [m for m in mem3 if m[0] == "agg" and m[1][:3] == ("adt", "std::result::Result", "Err")]
+            okr = len(mem3) == 2 and len(got) == 1 and len(dead) == 1
         run.require(okr, "O17.3", "caller-returns-helper-result:%s" % fnname, "%s does not return `rx.recv().map_err(..)?`: %s" % (fnname, show(ret)), "returns what rx.recv() yields; dead helper => Err", loc=site.loc)
     run.require(n >= 2, "O17.3", "helper-floor", "only %d thread helpers found" % n, "%d thread helpers" % n)
 
